@@ -6,27 +6,28 @@
 import RedkaModel.Proofs.Str
 import RedkaModel.Props.C02idx
 
-namespace Redka
+namespace Redka.ZSetRef
 
-open Redka.Scan
+open Redka Redka.Scan Redka.Spec Redka.Model Redka.DB
 
 /-! ### the order on scores -/
 
 namespace Score
 
-theorem lt_irrefl (a : Score) : lt a a = false := by
-  cases a <;> simp [lt]
+theorem lt_irrefl (a : Score) : Score.lt a a = false := by
+  cases a <;> simp [Score.lt]
 
-theorem lt_trans {a b c : Score} (h1 : lt a b = true) (h2 : lt b c = true) : lt a c = true := by
-  cases a <;> cases b <;> cases c <;> simp_all [lt]
+theorem lt_trans {a b c : Score} (h1 : Score.lt a b = true) (h2 : Score.lt b c = true) :
+    Score.lt a c = true := by
+  cases a <;> cases b <;> cases c <;> simp_all [Score.lt]
   grind
 
-theorem lt_connected {a b : Score} (h1 : lt a b = false) (h2 : lt b a = false) : a = b := by
-  cases a <;> cases b <;> simp_all [lt]
+theorem lt_connected {a b : Score} (h1 : Score.lt a b = false) (h2 : Score.lt b a = false) : a = b := by
+  cases a <;> cases b <;> simp_all [Score.lt]
   grind
 
-theorem lt_asymm {a b : Score} (h : lt a b = true) : lt b a = false := by
-  cases hc : lt b a with
+theorem lt_asymm {a b : Score} (h : Score.lt a b = true) : Score.lt b a = false := by
+  cases hc : Score.lt b a with
   | false => rfl
   | true =>
     have := lt_trans h hc
@@ -159,7 +160,11 @@ end sort
 
 /-! ### what the invariant gives for sorted sets -/
 
-namespace DB
+end Redka.ZSetRef
+
+namespace Redka.DB
+
+open Redka Redka.Scan Redka.Spec
 
 /-- `DB.WF` plus the sorted-set part of the C11 audit: `(kid, elem)` is unique in `rzset`, every
 `rzset` row has an owner in `rkey`, and the cached length of a sorted-set key is its row count. -/
@@ -205,13 +210,11 @@ theorem Inv.zwf {db : DB} (h : db.Inv) : db.ZWF := by
     rw [h2]
     simp [childCount, hty, TZSet, TList, TSet, THash]
 
-end DB
+end Redka.DB
 
-end Redka
+namespace Redka.ZSetRef
 
-namespace Redka.Model
-
-open Redka Redka.Spec Redka.DB Redka.Scan
+open Redka Redka.Scan Redka.Spec Redka.Model Redka.DB
 
 /-! ### the rows of one sorted set and the map they stand for -/
 
@@ -562,4 +565,4 @@ theorem zRangeScore_refines {db : DB} (hz : db.ZWF) (now : Int) (k : Bytes) (lo 
   · simp only [Bool.false_eq_true, if_false, hf]
   · simp only [if_true, List.map_reverse, hf]
 
-end Redka.Model
+end Redka.ZSetRef
